@@ -343,7 +343,7 @@ def r3(ctx):
         f = ctx.anchor("R3", r"^ast_grep_core::meta_var::MetaVarEnv::<'tree, D>::%s$" % name)
         if not f:
             continue
-        g = [c for c in f.calls if c.name == guard]
+        g = [c for c in f.calls if c.name == guard] or approving_guard(prog, f)
         ins = [c for c in f.calls if c.name == "insert" and "HashMap" in c.best]
         ok = False
         if g and ins:
@@ -352,6 +352,22 @@ def r3(ctx):
                 fb = f.reachable_from(ba["false"], stop=[ba["true"]])
                 ok = all(f.dominates(g[0].bb, i.bb) and i.bb not in fb for i in ins)
         ctx.ob("R3", "%s guarded by %s" % (name, guard), ok, "HashMap::insert happens only on the true arm of %s" % guard, where=f.loc())
+
+
+
+def approving_guard(prog, f):
+    """the call in MetaVarEnv::insert / insert_multi that approves the binding: a bool-returning method of the same type invoked on
+    self whose result is branched on before HashMap::insert (match_variable / match_multi_var, whatever they are called)"""
+    out = []
+    for c in f.calls:
+        if c.bb not in f.live_blocks or not c.dest or f.locals[c.dest[0]] != "bool" or not c.args or c.args[0][0] == "k":
+            continue
+        tg = [t for t in prog.call_targets(c) if t in prog.fns]
+        if len(tg) != 1 or prog.fns[tg[0]].impl_self != f.impl_self or prog.fns[tg[0]].impl_trait:
+            continue
+        if any(o.kind == "param" and o.ref == 1 for o in f.trace_operand(c.args[0])) and bool_arms(f, c) is not None:
+            out.append(c)
+    return out
 
 
 def deref_assigns(g, variant):
@@ -372,26 +388,52 @@ def deref_assigns(g, variant):
 
 def r4(ctx):
     prog = ctx.prog
+    from ..query import loop_of
     anyf = ctx.anchor("R4", r"^<ast_grep_core::ops::Any<L, M> as ast_grep_core::matcher::Matcher<L>>::match_node_with_env$")
     if anyf:
         ok = False
-        detail = "no closure re-initialising the scratch environment found: bindings of a losing alternative would be visible to the next one"
-        for g in prog.closures_of(anyf):
-            inner = [c for c in g.calls if c.name == "match_node_with_env"]
+        detail = "no per-alternative re-initialisation of the scratch environment found: bindings of a losing alternative would be visible to the next one"
+        for g in prog.family(anyf):
+            inner = [c for c in g.calls if c.name == "match_node_with_env" and c.bb in g.live_blocks]
             if not inner:
                 continue
-            resets = deref_assigns(g, "Borrowed")
-            if resets and all(any(g.dominates(r, c.bb) for r in resets) for c in inner):
+            resets = deref_assigns(g, "Borrowed") + plain_assigns(g, "Borrowed")
+            good = True
+            for c in inner:
+                doms = [r for r in resets if g.dominates(r, c.bb)]
+                if g.is_closure:
+                    # the per-alternative closure: a reset anywhere before the match inside the closure body
+                    good = good and bool(doms)
+                else:
+                    # a `for` loop over the alternatives: the reset must lie inside the loop body (executed for every alternative)
+                    heads = [h.bb for h in g.calls if h.name == "next" and "Iterator" in (h.callee.get("trait") or "") and g.in_loop(h.bb) and c.bb in loop_of(g, h.bb)]
+                    good = good and bool(heads) and any(r in loop_of(g, heads[-1]) for r in doms)
+            if good:
                 ok = True
-                detail = "the per-alternative closure assigns Cow::Borrowed(env) to the scratch before matching the alternative"
+                detail = "every alternative is matched into a scratch that was re-initialised from the incoming env for that alternative (%s)" % ("in the per-alternative closure" if g.is_closure else "inside the loop over the alternatives")
         ctx.ob("R4", "Any resets scratch per alternative", ok, detail, where=anyf.loc())
         commits = deref_assigns(anyf, "Owned")
         ctx.ob("R4", "Any commits once", len(commits) == 1, "%d assignment(s) of Cow::Owned(..) to *env" % len(commits), where=anyf.loc())
     allf = ctx.anchor("R4", r"^<ast_grep_core::ops::All<L, P> as ast_grep_core::matcher::Matcher<L>>::match_node_with_env$")
     if allf:
         resets = sum(len(deref_assigns(g, "Borrowed")) for g in prog.closures_of(allf))
+        # a reset inside the loop over the sub-matchers would forget the bindings of the earlier ones
+        for h in allf.calls:
+            if h.name == "next" and "Iterator" in (h.callee.get("trait") or "") and allf.in_loop(h.bb):
+                body = loop_of(allf, h.bb)
+                resets += len([r for r in deref_assigns(allf, "Borrowed") + plain_assigns(allf, "Borrowed") if r in body])
         commits = deref_assigns(allf, "Owned")
-        ctx.ob("R4", "All shares one scratch and commits once", resets == 0 and len(commits) == 1, "scratch created once outside the per-pattern closure (%d resets inside), %d commit(s) of Cow::Owned to *env" % (resets, len(commits)), where=allf.loc())
+        ctx.ob("R4", "All shares one scratch and commits once", resets == 0 and len(commits) == 1, "scratch created once outside the per-pattern closure/loop (%d resets inside), %d commit(s) of Cow::Owned to *env" % (resets, len(commits)), where=allf.loc())
+
+
+def plain_assigns(g, variant):
+    """blocks with `local = Cow::<variant>(..)` (a scratch declared inside a loop body)"""
+    out = []
+    for bi in g.live_blocks:
+        for s in g.blocks[bi]["s"]:
+            if s[0] == "A" and not s[1][1] and s[2][0] == "agg" and s[2][1].get("variant") == variant and "Cow" in (s[2][1].get("adt") or ""):
+                out.append(bi)
+    return out
 
 
 from ..query import DROPPING_ITER  # noqa: E402
@@ -434,6 +476,18 @@ def r5(ctx):
     prog = ctx.prog
     from ..query import iter_chain
     f = ctx.anchor("R5", r"^ast_grep_core::match_tree::does_node_match_exactly$")
+    entry_ids = {f.id} if f else set()
+    if f:
+        # a thin wrapper (`pub fn does_node_match_exactly(a, b) { is_structurally_equal(a, b) }`): the predicate is the wrapped function
+        for _ in range(3):
+            own = [c for c in f.calls if c.bb in f.live_blocks]
+            tg = [t for c in own for t in prog.call_targets(c) if t in prog.fns and prog.fns[t].crate == f.crate and t != f.id]
+            if len(own) == 1 and len(tg) == 1 and prog.fns[tg[0]].nargs == f.nargs and all(
+                    a[0] != "k" and any(o.kind == "param" and o.ref == i + 1 for o in f.trace_operand(a)) for i, a in enumerate(own[0].args)):
+                f = prog.fns[tg[0]]
+                entry_ids.add(f.id)
+            else:
+                break
     if f:
         fam = prog.family(f)
         rec = [(g, c) for g in fam for c in g.calls if prog.call_targets(c) == [f.id]]
@@ -478,10 +532,20 @@ def r5(ctx):
             ctx.ob("R5", "does_node_match_exactly/arity compared before zip", found and rej,
                    "zip truncates to the shorter side: the child counts are compared first and a mismatch returns false" if found and rej else
                    "children are zipped (truncating) without a rejecting length comparison: a node equals any node of which it is a prefix", where=f.loc())
-    mv = ctx.anchor("R5", r"^ast_grep_core::meta_var::MetaVarEnv::<'tree, D>::match_variable$")
+    def guard_fn(insert_name, default_name):
+        fs = prog.find_fns(r"^ast_grep_core::meta_var::MetaVarEnv::<'tree, D>::%s$" % default_name)
+        if len(fs) == 1:
+            return fs[0]
+        ins = prog.find_fns(r"^ast_grep_core::meta_var::MetaVarEnv::<'tree, D>::%s$" % insert_name)
+        if len(ins) == 1:
+            gs = approving_guard(prog, ins[0])
+            if len(gs) == 1:
+                return prog.fns[prog.call_targets(gs[0])[0]]
+        return ctx.anchor("R5", r"^ast_grep_core::meta_var::MetaVarEnv::<'tree, D>::%s$" % default_name)
+    mv = guard_fn("insert", "match_variable")
     if mv and f:
         gets = [c for c in mv.calls if c.name == "get" and any(o.kind == "param" and o.ref == 1 and "single_matched" in field_path(o.proj) for o in deep_roots(prog, mv, c.args[0], TRANSPARENT))]
-        eqs = [c for c in mv.calls if prog.call_targets(c) == [f.id]]
+        eqs = [c for c in mv.calls if len(prog.call_targets(c)) == 1 and prog.call_targets(c)[0] in entry_ids]
         ok = False
         detail = "no lookup of the existing binding / no call of does_node_match_exactly"
         if gets and eqs:
@@ -499,9 +563,9 @@ def r5(ctx):
             detail = ("an already bound variable is approved only by does_node_match_exactly(existing binding, candidate)" if ok else
                       "existing binding as goal: %s; candidate parameter: %s; result returned unmodified: %s; other assignments of the result on the bound arm: %s" % (a0, a1, bool(dest_ok), consts))
         ctx.ob("R5", "match_variable decided by does_node_match_exactly", ok, detail, where=mv.loc())
-    mm = ctx.anchor("R5", r"^ast_grep_core::meta_var::MetaVarEnv::<'tree, D>::match_multi_var$")
+    mm = guard_fn("insert_multi", "match_multi_var")
     if mm and f:
-        eqs = [c for c in mm.calls if prog.call_targets(c) == [f.id]]
+        eqs = [c for c in mm.calls if len(prog.call_targets(c)) == 1 and prog.call_targets(c)[0] in entry_ids]
         ok = False
         if eqs:
             ba = bool_arms(mm, eqs[0])
